@@ -132,6 +132,13 @@ func runC09(c *Ctx) {
 			if t.String() == "bool" && len(prm.Names) == 1 {
 				indentParam = info.Defs[prm.Names[0]]
 			}
+			// … or a small enumeration of the package (layoutInline / layoutIndented): the mode is then tested as
+			// `mode == <constant>`
+			if nt, ok := t.(*types.Named); ok && len(prm.Names) == 1 && nt.Obj().Pkg() == p.Types && !nt.Obj().Exported() {
+				if b, ok := nt.Underlying().(*types.Basic); ok && b.Info()&types.IsInteger != 0 {
+					indentParam = info.Defs[prm.Names[0]]
+				}
+			}
 			// … or the mode is a predicate the entry points hand in; then the single-line entry point must hand in one
 			// that is constantly false
 			if sig, ok := t.Underlying().(*types.Signature); ok && len(prm.Names) == 1 && sig.Results().Len() == 1 && sig.Results().At(0).Type().String() == "bool" {
@@ -753,6 +760,18 @@ func conjunctHas(info *types.Info, cond ast.Expr, v types.Object) bool {
 	}
 	if be, ok := cond.(*ast.BinaryExpr); ok && be.Op == token.LAND {
 		return conjunctHas(info, be.X, v) || conjunctHas(info, be.Y, v)
+	}
+	// the mode as an enumeration: mode == <constant of its type>
+	if be, ok := cond.(*ast.BinaryExpr); ok && be.Op == token.EQL {
+		for _, pair := range [][2]ast.Expr{{be.X, be.Y}, {be.Y, be.X}} {
+			if id, ok := ast.Unparen(pair[0]).(*ast.Ident); ok && info.ObjectOf(id) == v {
+				if _, isBool := v.Type().Underlying().(*types.Basic); isBool && v.Type().Underlying().(*types.Basic).Kind() != types.Bool {
+					if tv, ok := info.Types[pair[1]]; ok && tv.Value != nil {
+						return true
+					}
+				}
+			}
+		}
 	}
 	return false
 }
